@@ -103,7 +103,7 @@ def run(ctx, rep):
                 lit = strip(v[2][1])
                 src = v[2][0]
                 from_argv = any(x[0] == 'call' and x[1] == 'std::env::args' for x in walk(src)) and \
-                    any(x[0] == 'fnitem' and x[1] == 'std::path::Path::file_name' for x in walk(src)) and \
+                    any(x[0] in ('fnitem', 'call') and x[1] == 'std::path::Path::file_name' for x in walk(src)) and \
                     any(x[0] == 'call' and x[1] == 'core::slice::<impl [T]>::first' for x in walk(src))
                 if lit == ('const', phase) and from_argv:
                     name_ok = True
